@@ -283,7 +283,7 @@ def _x_runner(tier: str, seed: int, workers: int):
     from xh import c08_x
     from xh.runner import run_obligations
 
-    return run_obligations("xh.c08_x", c08_x.QUICK, 60 if tier == "quick" else 200, workers=workers, signatures=c08_x.SIGNATURES)
+    return run_obligations("xh.c08_x", c08_x.QUICK, 120 if tier == "quick" else 300, workers=workers, signatures=c08_x.SIGNATURES)
 
 
 def replay_obligation(payload):
